@@ -5,9 +5,9 @@ Driver for C19.  Request:
     portfolio eoe=<0|1> atomic=<0|1> <m0>,<m1>,...     m = T | F (answers sat / unsat) | R (raises) |
                                                             U (answers unknown) | C (dies silently)
 
-Answer: `ok <solve-set> | <query-set> | <closed-form-set>`: the outcomes of one `solve()` call over *all* schedules
+Answer: `ok <solve-set> | <query-set> | <closed-form-set> | states=<n> transitions=<m>`: the outcomes of one `solve()` call over *all* schedules
 of the transition system (exhaustive exploration of `isuccs`), the outcomes of a following `get_model`, and the
-closed form `allowed` (equal to the first set, `Proofs/C19Outcome.lean`).  Tokens: `v:T`, `v:F`,
+closed form `allowed` (equal to the first set, `Proofs/C19Outcome.lean`), then the size of the explored state space.  Tokens: `v:T`, `v:F`,
 `err:<ExceptionClass>`, `blocked`; `winner` (reply from the winner to the query asked), `foreign`, `blocked`.
 The empty set is `-`.
 -/
@@ -55,7 +55,10 @@ def answer (line : String) : String :=
       let so := (solveOutcomes cfg fuel init).map outcomeName
       let qo := (queryOutcomes cfg fuel init 0).map qoutcomeName
       let cl := (allowed cfg 1).map outcomeName
-      "ok " ++ showSet so ++ " | " ++ showSet qo ++ " | " ++ showSet cl
+      let states := (closure cfg fuel [fresh cfg init] {}).toList
+      let ntrans := (states.map fun t => (isuccs cfg t).length).sum
+      "ok " ++ showSet so ++ " | " ++ showSet qo ++ " | " ++ showSet cl ++ " | states=" ++ toString states.length ++
+        " transitions=" ++ toString ntrans
     | _, _, _ => "bad-op"
   | _ => "bad-op"
 
